@@ -472,4 +472,41 @@ example :
     recvAll .fixed 3 [] (datas (sentChunks false sends)) = ([toWire false m1, toWire false m2], .pending []) := by
   decide
 
+/-! ### the delimiter guard looks at the message, not at the writes that produced it
+
+A caller-supplied payload serialiser may hand its output to the writer in any number of writes (a
+streamed fragment). `to_xml` searches the finished body, so where the writes end is irrelevant. A
+guard that searched each write on its own would be weaker: a delimiter straddling two writes passes it. -/
+
+/-- the variant that checks every written block on its own -/
+def sendChunked (blocks : List (List Nat)) : Option (List Nat) :=
+  if blocks.any (fun b => (find marker b).isSome) then none else some (blocks.flatten ++ marker)
+
+/-- a delimiter inside one block is a delimiter of the whole: whatever the whole-message guard lets
+through, the per-block guard lets through as well (it is the weaker one) -/
+theorem occ_in_block_occ_in_flatten (pre post : List (List Nat)) (b : List Nat) (j : Nat)
+    (h : OccAt marker b j) : ∃ k, OccAt marker ((pre ++ b :: post).flatten) k := by
+  refine ⟨pre.flatten.length + j, ?_⟩
+  have : (pre ++ b :: post).flatten = pre.flatten ++ (b ++ post.flatten) := by simp
+  rw [this]
+  exact occAt_append_right _ _ _ (Framing.occAt_append _ _ _ _ h)
+
+theorem whole_guard_implies_block_guard (blocks : List (List Nat))
+    (h : find marker blocks.flatten = none) : ∀ b ∈ blocks, find marker b = none := by
+  intro b hb
+  rw [Framing.find_none_iff _ _ Framing.marker_ne_nil] at h ⊢
+  intro j hj
+  obtain ⟨pre, post, rfl⟩ := List.append_of_mem hb
+  obtain ⟨k, hk⟩ := occ_in_block_occ_in_flatten pre post b j hj
+  exact h k hk
+
+/-- … and strictly weaker: `<!-- ]]>]` + `]> -->` passes block by block, and what is sent contains the
+delimiter in its body (the peer cuts it in two frames) -/
+theorem per_block_guard_cex :
+    let blocks := [b!"<c><!-- ]]>]", b!"]> --></c>"]
+    (blocks.all fun b => (find marker b).isNone) = true ∧
+    (find marker blocks.flatten).isSome = true ∧
+    (sendChunked blocks).isSome = true ∧
+    (Framing.split ((sendChunked blocks).getD [])).1.length = 2 := by decide
+
 end Writers
